@@ -1273,6 +1273,13 @@ theorem activateDue_spec : ∀ (l : List Stream) (s s' : State), SStruct s → a
           exact ⟨r1, r2, r3, fun i => (r4 i).trans (m2 i)⟩
     · exact ih _ _ hs h
 
+/-- re-reading the sponsorship distribution changes only the records and the total weight -/
+theorem retarget_static (st : Stream) (d : List Rec) :
+    (st.retarget d).id = st.id ∧ (st.retarget d).coins = st.coins ∧ (st.retarget d).distributed = st.distributed ∧
+    (st.retarget d).start = st.start ∧ (st.retarget d).epochId = st.epochId ∧ (st.retarget d).numEpochs = st.numEpochs ∧
+    (st.retarget d).filled = st.filled ∧ (st.retarget d).sponsored = st.sponsored := by
+  unfold Stream.retarget; split <;> exact ⟨rfl, rfl, rfl, rfl, rfl, rfl, rfl, rfl⟩
+
 theorem startStreams_spec : ∀ (l : List Stream) (s s' : State), SStruct s → (l.map (·.id)).Nodup →
     (∀ st ∈ l, getS s.streams st.id = some st) → startStreams l s = .ok s' →
     SStruct s' ∧ StreamsMono s.streams s'.streams ∧ s'.bank = s.bank ∧ ∀ i, owedL s' i = owedL s i := by
@@ -1291,14 +1298,16 @@ theorem startStreams_spec : ∀ (l : List Stream) (s s' : State), SStruct s → 
       split at h
       · simp at h
       · have hget := hall st List.mem_cons_self
+        obtain ⟨q1, q2, q3, _⟩ := retarget_static st s.distr
         obtain ⟨w1, w2, w3⟩ := write_same s hs st
-          { st with epochCoins := Coins.quo remain (st.numEpochs - st.filled), ecEmpty := remain.isZero } hget rfl rfl
-        have hall' : ∀ y ∈ rest, getS (setStream s { st with epochCoins := Coins.quo remain (st.numEpochs - st.filled), ecEmpty := remain.isZero }).streams y.id = some y := by
+          { st.retarget s.distr with epochCoins := Coins.quo remain (st.numEpochs - st.filled), ecEmpty := remain.isZero }
+          (by show getS s.streams (st.retarget s.distr).id = some st; rw [q1]; exact hget) q2 q3
+        have hall' : ∀ y ∈ rest, getS (setStream s { st.retarget s.distr with epochCoins := Coins.quo remain (st.numEpochs - st.filled), ecEmpty := remain.isZero }).streams y.id = some y := by
           intro y hy
           have hne : y.id ≠ st.id := fun he => hn1 (by rw [← he]; exact List.mem_map_of_mem (f := (·.id)) hy)
           obtain ⟨g1, _⟩ := getS_some hs.sid hget
-          show getS (s.streams.set (st.id - 1) _) y.id = some y
-          rw [getS_set_ne _ _ _ _ (by omega)]
+          show getS (s.streams.set ((st.retarget s.distr).id - 1) _) y.id = some y
+          rw [q1, getS_set_ne _ _ _ _ (by omega)]
           exact hall y (List.mem_cons_of_mem _ hy)
         obtain ⟨r1, r2, r3, r4⟩ := ih _ _ w1 hn2 hall' h
         exact ⟨r1, StreamsMono.trans w2 r2, r3, fun i => (r4 i).trans (w3 i)⟩
@@ -1528,8 +1537,8 @@ theorem getS_append_new (ss : List Stream) (v : Stream) : getS (ss ++ [v]) (ss.l
   unfold getS
   simp
 
-theorem createStream_sstep (s : State) (hs : SStruct s) (c : Coins) (rs : List Rec) (st e n : Nat) :
-    SStep s (createStream s c rs st e n).2 := by
+theorem createStream_sstep (s : State) (hs : SStruct s) (sp : Bool) (c : Coins) (rs0 : List Rec) (st e n : Nat) :
+    SStep s (createStream s sp c rs0 st e n).2 := by
   unfold createStream
   split
   · exact SStep.refl hs
@@ -1556,7 +1565,7 @@ theorem createStream_sstep (s : State) (hs : SStruct s) (c : Coins) (rs : List R
                   simp only
                   obtain ⟨n1, n2, n3⟩ := List.nodup_append.1 hs.nodup
                   have hnew : ∀ x ∈ openIds s, x ≠ s.streams.length + 1 := fun x hx he => by have := (hs.valid x hx).2; omega
-                  let v : Stream := { id := s.streams.length + 1, recs := rs, totalWeight := totalWeightOf rs, coins := c, distributed := [], start := (if st < s.now then s.now else st), epochId := e, numEpochs := n, filled := 0, epochCoins := Coins.quo c n, ecEmpty := false }
+                  let v : Stream := { id := s.streams.length + 1, recs := (if sp then s.distr else rs0), totalWeight := totalWeightOf (if sp then s.distr else rs0), coins := c, distributed := [], start := (if st < s.now then s.now else st), epochId := e, numEpochs := n, filled := 0, epochCoins := Coins.quo c n, ecEmpty := false, sponsored := sp }
                   have hopen : openIds { s with streams := s.streams ++ [v], upcoming := u } = s.active.ids ++ u.ids := rfl
                   refine ⟨⟨?_, ?_, ?_⟩, StreamsMono_append _ _, ?_⟩
                   · intro k hk
@@ -1662,10 +1671,32 @@ theorem replaceDistr_sstep (s : State) (hs : SStruct s) (id : Nat) (rs : List Re
           obtain ⟨w1, w2, w3⟩ := write_same s hs st { st with recs := rs, totalWeight := totalWeightOf rs } (by rw [hid]; exact hg) rfl rfl
           exact ⟨w1, w2, fun hsol _ i => by rw [w3 i]; exact hsol i⟩
 
-/-- module accounts do not sign messages (streamer side) -/
+theorem updateDistr_sstep (s : State) (hs : SStruct s) (id : Nat) (rs : List Rec) : SStep s (updateDistr s id rs).2 := by
+  unfold updateDistr
+  cases hg : getStream s id with
+  | none => exact SStep.refl hs
+  | some st =>
+    simp only
+    split
+    · exact SStep.refl hs
+    · split
+      · exact SStep.refl hs
+      · split
+        · exact SStep.refl hs
+        · split
+          · exact SStep.refl hs
+          · rw [getStream_eq] at hg
+            obtain ⟨_, _, _, hid, _⟩ := getS_some hs.sid hg
+            obtain ⟨w1, w2, w3⟩ := write_same s hs st { st with recs := mergeRecs st.recs rs, totalWeight := totalWeightOf (mergeRecs st.recs rs) }
+              (by rw [hid]; exact hg) rfl rfl
+            exact ⟨w1, w2, fun hsol _ i => by rw [w3 i]; exact hsol i⟩
+
+/-- module accounts do not sign messages (streamer side); the sponsorship distribution handed in lists its
+    gauges in strictly ascending id order (x/sponsorship keeps it so: `Distribution.Merge`) -/
 def Op.wfS : Op → Prop
   | .createGauge o _ _ _ _ _ _ _ => o ≠ streamerAddr
   | .addToGauge o _ _ => o ≠ streamerAddr
+  | .distribution rs => (rs.map (·.gauge)).Pairwise (· < ·)
   | _ => True
 
 instance (op : Op) : Decidable op.wfS := by
@@ -1677,6 +1708,49 @@ theorem send_keeps_streamer {b b' : Bank} {o : Nat} {c : Coins} (h : b.send o in
   have := sb streamerAddr i
   rw [if_neg (fun x => h2 x.symm), if_neg (by decide)] at this
   exact this
+
+/-- a transfer of no coins moves nothing -/
+theorem send_nil_keeps {b b' : Bank} {o : Nat} (h : b.send o incAddr [] = some b') (h1 : o ≠ incAddr)
+    (a i : Nat) : amt (b'.get a) i = amt (b.get a) i := by
+  obtain ⟨_, sb⟩ := Bank.send_some h h1
+  have := sb a i
+  simp only [amt_nil, Nat.sub_zero, Nat.add_zero] at this
+  split at this
+  · next h => rw [this, h]
+  · split at this
+    · next h => rw [this, h]
+    · exact this
+
+/-- `CreateAssetGauge` with empty coins (any creator but the incentives module account) is a frame step -/
+theorem createGauge_nil_sstep (s : State) (hs : SStruct s) (o : Nat) (hw : o ≠ incAddr) (p : Bool) (d du : Nat) (hsup : Bool) (st n : Nat) :
+    SStep s (createGauge s o p d du hsup [] st n).2 := by
+  unfold createGauge
+  split
+  · exact SStep.refl hs
+  · split
+    · exact SStep.refl hs
+    · split
+      · exact SStep.refl hs
+      · cases hsend : s.bank.send o incAddr [] with
+        | none => exact SStep.refl hs
+        | some b =>
+          simp only
+          refine SStep.of_frame hs rfl rfl rfl ?_
+          intro i
+          have := send_nil_keeps hsend hw streamerAddr i
+          simp only; omega
+
+theorem poolGaugesLoop_sstep (denom : Nat) (hsup : Bool) : ∀ (ds : List Nat) (s : State), SStruct s → SStep s (poolGaugesLoop denom hsup ds s).2 := by
+  intro ds
+  induction ds with
+  | nil => intro s hs; exact SStep.refl hs
+  | cons d rest ih =>
+    intro s hs
+    unfold poolGaugesLoop
+    have h1 := createGauge_nil_sstep s hs streamerAddr (by decide) true denom d hsup s.now 1
+    generalize createGauge s streamerAddr true denom d hsup [] s.now 1 = res at h1
+    obtain ⟨o, s'⟩ := res
+    cases o <;> first | exact SStep.trans h1 (ih s' h1.struct) | exact h1
 
 theorem step_sstep (s : State) (op : Op) (hg : GInv s) (hs : SStruct s) (hw : op.wf) (hw2 : op.wfS) : SStep s (step s op).2 := by
   unfold step
@@ -1749,9 +1823,12 @@ theorem step_sstep (s : State) (op : Op) (hg : GInv s) (hs : SStruct s) (hw : op
               have := send_keeps_streamer hsend hw hw2 i
               show _ ≤ amt (b.get streamerAddr) i
               omega
-    | createStream c rs st e n => exact createStream_sstep s hs c rs st e n
+    | createStream sp c rs st e n => exact createStream_sstep s hs sp c rs st e n
     | terminateStream id => exact terminateStream_sstep s hs id
     | replaceDistr id rs => exact replaceDistr_sstep s hs id rs
+    | updateDistr id rs => exact updateDistr_sstep s hs id rs
+    | distribution rs => exact SStep.of_frame (s' := { s with distr := rs }) hs rfl rfl rfl (fun _ => Nat.le_refl _)
+    | poolGauges d hsup => exact poolGaugesLoop_sstep d hsup lockableDurations s hs
 
 /-- along every history: the structural invariant holds and streams only grow -/
 theorem run_struct_mono : ∀ (ops : List Op) (s : State), GInv s → SStruct s → (∀ op ∈ ops, op.wf ∧ op.wfS) →
